@@ -90,6 +90,9 @@ func internalPaginationFromOptions(opts ...x.PaginationOptionSetter) (*internalP
 	ip := &internalPagination{
 		PerPage: xp.Size,
 	}
+	if ip.PerPage < 0 {
+		return ip, errors.WithStack(herodot.ErrBadRequest.WithError("page size must not be negative"))
+	}
 	if ip.PerPage == 0 {
 		ip.PerPage = defaultPageSize
 	}
